@@ -172,3 +172,32 @@ def round_trip(H):
             continue
         parts.append(H.close(a, b))
     H.prove(And(*parts), "round_trip.every_field_survives")
+
+
+@obligation((P, "C19", "C03"), "state.shape_constructor_is_idempotent", functions=["svg_types.SVGRect.__post_init__"])
+def constructor_idempotent(H):
+    """A shape object is what its own serialisation parses back to: building the shape again from its own fields changes nothing
+    (a constructor that normalises - SVGRect caps and defaults its corner radii - must reach a fixed point in one step, otherwise the
+    cached shape and the re-parsed document differ), and the radii are the ones SVG 1.1 9.2 prescribes."""
+    import dataclasses
+
+    from picosvg.svg_types import SVGRect
+
+    from pyvc.sym import smin
+
+    given = H.case("radii_given", ("none", "rx", "ry", "both"))
+    w, h = H.real("w"), H.real("h")
+    H.assume(And(w > 0, h > 0))
+    rx = H.real("rx") if given in ("rx", "both") else 0.0
+    ry = H.real("ry") if given in ("ry", "both") else 0.0
+    for v in (rx, ry):
+        if not isinstance(v, float):
+            H.assume(v > 0)
+    r1 = H.call(SVGRect, x=1.0, y=2.0, width=w, height=h, rx=rx, ry=ry)
+    fields = {f.name: getattr(r1, f.name) for f in dataclasses.fields(r1)}
+    r2 = H.call(SVGRect, **fields)
+    H.prove(And(H.close(r2.rx, r1.rx), H.close(r2.ry, r1.ry), H.close(r2.width, r1.width), H.close(r2.height, r1.height)), "constructor.rebuilding_the_shape_from_its_own_fields_changes_nothing")
+    mn = smin if H.mode == "sym" else min
+    want_rx = mn(rx if given in ("rx", "both") else ry, w / 2)
+    want_ry = mn(ry if given in ("ry", "both") else rx, h / 2)
+    H.prove(And(H.close(r1.rx, want_rx), H.close(r1.ry, want_ry)), "constructor.rect_radii_default_to_each_other_then_are_capped_at_half_the_side")
